@@ -1,2 +1,118 @@
-(* placeholder while the proofs are being written *)
-From BioVerif Require Import Model.ISISCodec.
+(* C30 - IS-IS PDU decoding is total and encoding round-trips.
+   Only statements here; the model is Model/ISISCodec.v (protocols/isis/packet), the guards [wf_*]
+   and the expected contents [norm_*] are Spec/ISISCodecSpec.v, proofs are Proofs/ISISCodecProofs.v. *)
+From Coq Require Import List NArith ZArith Permutation.
+Import ListNotations.
+From BioVerif Require Import Model.ISISCodec Spec.ISISCodecSpec Proofs.ISISCodecProofs.
+Open Scope N_scope.
+
+(* The loops of the decoders (readTLVs, area addresses, LSP entries) terminate: any fuel above the
+   number of input bytes yields the result of packet.Decode, which is never "out of fuel". *)
+Theorem C30_fuel_suffices : forall (b : list N) (f : nat), (length b < f)%nat ->
+  decode_fuel f b = decode b /\ decode b <> OutOfFuel.
+Proof. exact fuel_suffices. Qed.
+Print Assumptions C30_fuel_suffices.
+
+(* packet.Decode returns a PDU or an error for every byte string: no index or slice is out of range. *)
+Theorem C30_no_panic : forall b : list N, decode b <> Panic.
+Proof. exact no_panic. Qed.
+Print Assumptions C30_no_panic.
+
+(* The same for the exported packet.DecodeL2Hello, which packet.Decode does not dispatch to. *)
+Theorem C30_no_panic_l2hello : forall b : list N, decode_l2 b <> Panic /\ decode_l2 b <> OutOfFuel.
+Proof. exact no_panic_l2_total. Qed.
+Print Assumptions C30_no_panic_l2hello.
+
+(* Round trips: LLC ++ ISISHeader.Serialize ++ body.Serialize decodes to the same header and the
+   same body content, for every PDU value whose TLV length fields say what is serialized. *)
+Theorem C30_roundtrip_hello : forall (llc : list N) (h : header) (x : hello),
+  length llc = 3%nat -> h_type h = 17 -> wf_hello x ->
+  decode (enc_packet llc (mkPacket h (BHello x))) = Ok (mkPacket h (BHello (norm_hello x))).
+Proof. exact roundtrip_hello. Qed.
+Print Assumptions C30_roundtrip_hello.
+
+Theorem C30_roundtrip_lsp : forall (llc : list N) (h : header) (x : lsp),
+  length llc = 3%nat -> h_type h = 20 -> wf_lsp x ->
+  decode (enc_packet llc (mkPacket h (BLsp x))) = Ok (mkPacket h (BLsp (norm_lsp x))).
+Proof. exact roundtrip_lsp. Qed.
+Print Assumptions C30_roundtrip_lsp.
+
+Theorem C30_roundtrip_csnp : forall (llc : list N) (h : header) (x : csnp),
+  length llc = 3%nat -> h_type h = 25 -> wf_csnp x ->
+  decode (enc_packet llc (mkPacket h (BCsnp x))) = Ok (mkPacket h (BCsnp (norm_csnp x))).
+Proof. exact roundtrip_csnp. Qed.
+Print Assumptions C30_roundtrip_csnp.
+
+Theorem C30_roundtrip_psnp : forall (llc : list N) (h : header) (x : psnp),
+  length llc = 3%nat -> h_type h = 27 -> wf_psnp x ->
+  decode (enc_packet llc (mkPacket h (BPsnp x))) = Ok (mkPacket h (BPsnp (norm_psnp x))).
+Proof. exact roundtrip_psnp. Qed.
+Print Assumptions C30_roundtrip_psnp.
+
+(* NewCSNPs / NewPSNPs, for any number of LSP entries and any maxPDULen: no panic (no slice or index
+   out of range, no bad make), every PDU built decodes back to itself, and - as soon as one entry
+   fits into a PDU - the PDUs carry exactly the given entries (CSNPs: sorted by system id and
+   pseudonode id; PSNPs: in the given order). *)
+Theorem C30_new_csnps : forall (src : list N) (es : list lspentry) (maxlen : Z) (llc : list N) (h : header),
+  len_is src 7 -> Forall wf_entry es -> length llc = 3%nat -> h_type h = 25 ->
+  exists cs, new_csnps src es maxlen = Ok cs /\
+    Forall (fun c => decode (enc_packet llc (mkPacket h (BCsnp c))) = Ok (mkPacket h (BCsnp c))) cs /\
+    ((1 <= entries_per_pdu (maxlen - 33))%Z ->
+       concat (map csnp_entries cs) = sort_entries es /\ Permutation (sort_entries es) es).
+Proof. exact new_csnps_roundtrip. Qed.
+Print Assumptions C30_new_csnps.
+
+Theorem C30_new_psnps : forall (src : list N) (es : list lspentry) (maxlen : Z) (llc : list N) (h : header),
+  len_is src 7 -> Forall wf_entry es -> length llc = 3%nat -> h_type h = 27 ->
+  exists ps, new_psnps src es maxlen = Ok ps /\
+    Forall (fun p => decode (enc_packet llc (mkPacket h (BPsnp p))) = Ok (mkPacket h (BPsnp p))) ps /\
+    ((1 <= entries_per_pdu (maxlen - 17))%Z -> concat (map psnp_entries ps) = es).
+Proof. exact new_psnps_roundtrip. Qed.
+Print Assumptions C30_new_psnps.
+
+(* ---- non-vacuity *)
+
+Definition ex_llc : list N := [254; 254; 3].
+Definition ex_entry (k : N) : lspentry := mkEntry 1200 [0; 0; 0; 0; 0; k; 0; 0] 7 4660.
+
+(* a hello as the server builds it plus TLVs without a decoder: the hypotheses of the round trip hold
+   and the decoder returns the padding and the extended reachability TLVs as unknown TLVs *)
+Definition ex_hello : hello :=
+  mkHello 2 [1; 2; 3; 4; 5; 6] 27 0 1
+    [TP2PAdj 240 15 0 7 [6; 5; 4; 3; 2; 1] 9; TProto 129 2 [204; 142]; TIPIf 132 4 [167772161];
+     TArea 1 4 [[73; 0; 1]]; TPadding 8 3 [0; 0; 0];
+     TExtIP 135 8 [mkExtIp 10 24 167772160 []]].
+
+Example C30_example_hello_wf : wf_hello ex_hello.
+Proof.
+  unfold wf_hello, ex_hello, len_is, u16; cbn. repeat split; try reflexivity.
+  repeat (apply Forall_cons;
+    [unfold wf_tlv, wf_raw, u8, u16, u32, len_is; cbn; repeat split; try reflexivity;
+     try (right; repeat split; reflexivity); repeat constructor|]).
+  apply Forall_nil.
+Qed.
+
+Example C30_example_hello_roundtrip :
+  decode (enc_packet ex_llc (mkPacket (hdr_of 17) (BHello ex_hello))) =
+  Ok (mkPacket (hdr_of 17) (BHello (mkHello 2 [1; 2; 3; 4; 5; 6] 27 68 1
+    [TP2PAdj 240 15 0 7 [6; 5; 4; 3; 2; 1] 9; TProto 129 2 [204; 142]; TIPIf 132 4 [167772161];
+     TArea 1 4 [[73; 0; 1]]; TUnknown 8 3 [0; 0; 0]; TUnknown 135 8 [0; 0; 0; 10; 24; 10; 0; 0]]))).
+Proof. vm_compute. reflexivity. Qed.
+
+(* the guard is needed: 16 LSP entries in one TLV (what NewCSNPs produced before the repair, the
+   length byte is uint8(16)*16 = 0) cannot be decoded *)
+Example C30_example_16_entries_not_representable :
+  decode (enc_packet ex_llc (mkPacket (hdr_of 25)
+    (BCsnp (mkCsnp 35 [1; 2; 3; 4; 5; 6; 0] zero8 ff8 [new_entries_tlv (map ex_entry
+       [1; 2; 3; 4; 5; 6; 7; 8; 9; 10; 11; 12; 13; 14; 15; 16])])))) = Err.
+Proof. vm_compute. reflexivity. Qed.
+
+(* 17 entries, room for 16 per PDU (293 = 33 + 242 + 2 + 16): two CSNPs, the first with two LSP entries TLVs *)
+Example C30_example_new_csnps :
+  match new_csnps [1; 2; 3; 4; 5; 6; 0] (map ex_entry [17; 1; 2; 3; 4; 5; 6; 7; 8; 9; 10; 11; 12; 13; 14; 15; 16]) 293 with
+  | Ok [c1; c2] => map tlv_len (cs_tlvs c1) = [240; 16] /\ map tlv_len (cs_tlvs c2) = [16] /\
+                   cs_start c1 = zero8 /\ cs_end c1 = [0; 0; 0; 0; 0; 16; 0; 0] /\ cs_end c2 = ff8 /\
+                   cs_len c1 = 293 /\ cs_len c2 = 51
+  | _ => False
+  end.
+Proof. vm_compute. repeat split; reflexivity. Qed.
